@@ -103,6 +103,10 @@ ORD = {
     "alpha/amod.py": "def fa() -> int:\n    \"\"\"Fa doc.\n\n    Returns\n    -------\n    total : int\n        The total doc.\n    \"\"\"\n",
     "zmod.py": "def gz(v: int = None, w: str = \"a\") -> int:\n    ...\n",
     "beta/__init__.py": "from ordpk.alpha import Thing\n\n\nclass Other:\n    pass\n",
+    # a class whose docstring documents the constructor parameter and an attribute
+    "beta/circle.py": ("class Circle:\n    \"\"\"Circle doc.\n\n    Parameters\n    ----------\n    radius : float\n        The radius doc.\n\n    Attributes\n    ----------\n"
+                       "    area : float\n        The area doc.\n    \"\"\"\n\n    def __init__(self, radius):\n        self.radius = radius\n        self.area = 0.0\n\n\n"
+                       "def compute(value: int, scale: float = 1.0) -> float:\n    \"\"\"Compute doc.\n\n    Parameters\n    ----------\n    value : int\n        The value doc.\n    scale : float\n        The scale doc.\n    \"\"\"\n"),
     "beta/bmod.py": "def fb() -> int:\n    ...\n",
 }
 ROOTS = {
@@ -138,6 +142,12 @@ def main(v: Verdict) -> None:
                 shutil.copytree(d, kw["cwd"] / d.name)
                 for f in (kw["cwd"] / d.name).rglob("*.py"):
                     f.write_text(f.read_text().replace(" doc.", " text of the other checkout."))
+            elif e["cwd"] == "ancestor":
+                import shutil
+                kw["cwd"] = fresh_dir("cwd")
+                shutil.copytree(d, kw["cwd"] / "proj" / "lib" / d.name)      # proj and lib are plain directories
+                kw["src"] = kw["cwd"] / "proj" / "lib" / d.name
+                kw["out"] = kw["cwd"] / "out"
             elif e["spelling"] == "rel":
                 kw["cwd"] = fresh_dir("cwd")
                 kw["out"] = kw["cwd"] / "out"
